@@ -63,9 +63,17 @@ class Sess:
         return (self.name, self.lines)
 
     # -- connection
-    def connect(self, fields=(('cid', b'c'),), connack_ps=(), reason=0, run=True, cuts=None):
+    def connect(self, fields=(('cid', b'c'),), connack_ps=(), reason=0, run=True, cuts=None, via_auth=False):
         self.add('SETUP')
-        self.add(('CONNECT ' + m.kvs(fields)).strip())
+        if via_auth:
+            # extended authentication: CONNECT with a method, AUTH challenge, authorize(), and only then the CONNACK
+            # (which is the one that carries Receive Maximum, Maximum Packet Size, Session Expiry ...)
+            fields = [f for f in fields if f[0] not in ('am', 'ad')] + [('am', b'm'), ('ad', b'd')]
+            self.add(('CONNECT ' + m.kvs(fields)).strip())
+            self.add(m.feed(m.auth(0x18, [(21, b'm'), (22, b'x')])))
+            self.add('AUTHORIZE r=24 am=6d ad=64')
+        else:
+            self.add(('CONNECT ' + m.kvs(fields)).strip())
         self.add(m.feed(m.connack(0, reason, connack_ps), cuts))
         if run:
             self.add('RUN')
@@ -742,7 +750,8 @@ class Walk:
     """Weighted random walk over client operations and broker responses (conformant broker unless told otherwise)."""
 
     def __init__(self, rng, name, cfg=None, recv_max=None, max_pkt=None, clones=1, sei=None, weights=None,
-                 allow_hold=False, allow_drop=False, allow_poll=False, nonconformant=0.0, subid_modes=None, snap=True):
+                 allow_hold=False, allow_drop=False, allow_poll=False, nonconformant=0.0, subid_modes=None, snap=True,
+                 via_auth=None):
         self.rng = rng
         self.s = Sess(name, cfg)
         ps = []
@@ -754,7 +763,7 @@ class Walk:
         fields = [('cid', b'c')]
         if sei is not None:
             fields.append(('sei', sei))
-        self.s.connect(fields, ps)
+        self.s.connect(fields, ps, via_auth=via_auth if via_auth is not None else rng.random() < 0.25)
         for h in range(1, clones):
             self.s.add(f'CLONE h0 h{h}')
             self.s.handles.append(h)
@@ -1039,6 +1048,28 @@ def fam_C07(rng, tier):
         if i & 4:
             s.add('DROPCTX')
         out.append(s.script())
+    out += burst_scripts('c07', tier)
+    return out
+
+
+def burst_scripts(prefix, tier):
+    """a backlog of N messages in one stream, forwarded by the context before the consumer is polled (one read holding N
+    PUBLISH packets), consumed back to back; then two more messages one at a time. N around powers of two and small counts."""
+    out = []
+    ns = [2, 3, 7, 8, 9, 15, 16, 17, 18, 31, 32, 33, 34, 63, 64, 65, 100]
+    if tier != 'quick':
+        ns += [127, 128, 129, 255, 256, 257, 300, 511, 512, 513, 1023, 1024, 1025, 1100]
+    for n in ns:
+        for qos in ([0] if tier == 'quick' and n > 40 else [0, 1]):
+            s = Sess(f'{prefix}-burst-{n}-q{qos}')
+            s.connect()
+            op, sid = s.subscribed_stream()
+            data = b''.join(m.publish(b'a', bytes([j % 256, j // 256]), qos, (j % 60000) + 1 if qos else None, 0, 0, [(11, sid)])
+                            for j in range(n))
+            s.feed(data)
+            s.feed(m.publish(b'a', b'tail1', 0, None, 0, 0, [(11, sid)]))
+            s.feed(m.publish(b'a', b'tail2', 0, None, 0, 0, [(11, sid)]))
+            out.append(s.script())
     return out
 
 
@@ -1137,6 +1168,22 @@ def fam_C10(rng, tier):
                 s.publish(2)                      # accepted again
                 s.publish(1)                      # refused again
                 out.append(s.script())
+    # a publish refused for its SIZE takes no slot: k oversized QoS>0 publishes, then the quota is still R
+    for R in [1, 2, 3]:
+        for k in [1, 2, 4]:
+            for qos in [1, 2]:
+                for via in [False, True]:
+                    s = Sess(f'c10-size-{i}')
+                    i += 1
+                    s.connect(connack_ps=[(33, R), (39, 20)], via_auth=via)
+                    for _ in range(k):
+                        s.publish(qos, fields=[('p', b'0123456789012345678901234567890')], topic=b'topic/x')
+                    ops = [s.publish(qos, topic=b'a') for _ in range(R)]       # all R accepted
+                    s.publish(1, topic=b'a')                                    # refused for the quota
+                    o, p = ops[0]
+                    s.feed(m.ack('puback' if qos == 1 else 'pubrec', p, 0x80 if qos == 2 else 0))
+                    s.publish(qos, topic=b'a')                                  # accepted again
+                    out.append(s.script())
     if not q:
         # 'big-' scripts are run on the implementation and judged by the oracle only: the list-based Lean model is
         # quadratic in the number of simultaneously outstanding operations
@@ -1162,7 +1209,9 @@ def fam_C11(rng, tier):
         s.add(f'CLONE h0 h{h}')
     window = []
     for i in range(total):
-        k = i % 7
+        # two subscribe() calls exactly 65535 identifier allocations apart get the same packet identifier (legitimately: the
+        # first one was acknowledged long ago) — their SUBSCRIPTION identifiers must still differ
+        k = 6 if (i - 6) % 65535 == 0 else i % 7
         h = i % 3
         if k in (0, 1, 2):
             op, pid = s.unsubscribe([b'a'], h)
@@ -1203,7 +1252,7 @@ def fam_C12(rng, tier):
             s = Sess(f'c12-{kind}-{i}')
             i += 1
             ps = [(33, 2)] + ([(39, M)] if M is not None else [])
-            s.connect(connack_ps=ps)
+            s.connect(connack_ps=ps, via_auth=(M is not None and M % 6 == 1) or (M is None and kind in ('pub1', 'sub')))
             if kind.startswith('pub'):
                 s.publish(int(kind[3]), fields=[('p', b'0123456789'), ('up', (b'k', b'v'))], topic=b'topic/x')
             elif kind == 'sub':
@@ -1236,7 +1285,7 @@ def fam_C12_quota(out):
                 s = Sess(f'c12-quotar{R}q{qos}-{i}')
                 i += 1
                 ps = [(33, R)] + ([(39, M)] if M is not None else [])
-                s.connect(connack_ps=ps)
+                s.connect(connack_ps=ps, via_auth=(i % 3 == 0))
                 first = [s.publish(1, topic=b'a') for _ in range(R)]            # quota exhausted (8-byte packets)
                 s.publish(qos, fields=[('p', b'0123456789012345678901234567890')], topic=b'topic/x')   # ~45 bytes
                 s.publish(qos, topic=b'a')                                       # fits: refused for the quota
@@ -1403,6 +1452,35 @@ def fam_C14(rng, tier):
                 s.add(f'POLL op{o}')
             s.add('POLL st3')
             out.append(s.script())
+    # a stream holding k unconsumed messages when the context goes: all k are yielded, then the stream ends. Variants: the
+    # stream was polled before (registered) or never; taken before or only after the drop; messages in one read or one each;
+    # part of the backlog consumed while the context was alive
+    for k in range(0, 6 if tier == 'quick' else 20):
+        for variant in ['held', 'late-stream', 'one-read', 'partly']:
+            s = Sess(f'c14-buf-{k}-{variant}')
+            s.connect()
+            op, pid, sid = s.subscribe()
+            s.feed(m.suback(pid, [0]))
+            s.live_ops.pop(op, None)
+            if variant != 'late-stream':
+                s.add(f'STREAM {op}')
+                s.add(f'HOLD st{op}')
+            msgs = [m.publish(b'a', bytes([48 + j]), 0, None, 0, 0, [(11, sid)]) for j in range(k)]
+            if variant == 'one-read':
+                s.feed(b''.join(msgs)) if msgs else None
+            else:
+                for x in msgs:
+                    s.feed(x)
+            if variant == 'partly' and k >= 2:
+                s.add(f'POLL st{op}')          # a held task polled by the script: takes exactly one item
+            s.add('DROPCTX')
+            if variant == 'late-stream':
+                s.add(f'STREAM {op}')
+            else:
+                s.add(f'RELEASE st{op}')
+            for _ in range(2):
+                s.add(f'POLL st{op}')
+            out.append(s.script())
     for kind in ['pub1', 'pub2-rec', 'pub2-comp', 'sub', 'unsub', 'ping', 'pub0']:
         for failing in [False, True]:
             s = Sess(f'c14-held-{kind}-{int(failing)}')
@@ -1537,7 +1615,9 @@ def fam_C16(rng, tier):
     base = []
     base += fam_walk(rng, tier, 'c16-a', 25 if tier == 'quick' else 400, lambda r: r.choice([20, 60]),
                      clones=2, weights=dict(inbound=5, stream=2, pubrel=1), allow_drop=True)
-    base += fam_C07(rng, 'quick')[-8:]
+    c07 = fam_C07(rng, 'quick')
+    base += [x for x in c07 if x[0].startswith('c07-early')]
+    base += [(n.replace('c07-', 'c16-'), l) for n, l in burst_scripts('c07', tier)]
     base += fam_C06(rng, 'quick')[:20]
     for name, lines in base:
         if any(l.startswith('HOLD') for l in lines):
